@@ -6,6 +6,7 @@ import (
 	"bytes"
 	"io"
 	"os"
+	"path"
 	"path/filepath"
 	"strings"
 
@@ -329,6 +330,21 @@ var preTrees = []fsx.Tree{
 	{{Path: "a", Kind: "dir", Mode: 0755}, {Path: "a/b", Kind: "file", Content: "PRE:a/b", Mode: 0444, Sec: 1111111112}},
 	{{Path: "d", Kind: "dir", Mode: 0500, Sec: 1111111113}, {Path: "l", Kind: "file", Content: "PRE:l", Mode: 0400}},
 	{{Path: "m", Kind: "dir", Mode: 0755}, {Path: "m/a", Kind: "dir", Mode: 0755}, {Path: "b", Kind: "file", Content: "PRE:b", Mode: 0600}},
+	// names inside dst that are second names (hard links) of files outside of it
+	{{Path: "a", Kind: "hardlink", Target: "../outside/f"}, {Path: "d", Kind: "dir", Mode: 0755}, {Path: "d/b", Kind: "hardlink", Target: "../dst-evil/x"}, {Path: "l", Kind: "hardlink", Target: "../a"}},
+}
+
+// PreHardLinks lists, relative to the arena root, the outside files that have a
+// second name inside dst before Unpack runs: replacing such a name changes the
+// link count and the change time of the file, nothing else.
+func (c Case) PreHardLinks() []string {
+	var out []string
+	for _, n := range c.Pre {
+		if n.Kind == "hardlink" {
+			out = append(out, path.Join(dstRel, n.Target))
+		}
+	}
+	return out
 }
 
 // GenCase draws a whole experiment. linkWeight = % of entries that are
@@ -355,9 +371,14 @@ func GenCase(t *rapid.T, linkWeight, escapeWeight int, withFaults bool, withAllo
 		return GenEntry(t, "", linkWeight, escapeWeight)
 	}), 1, 8).Draw(t, "entries")
 	planted := false
+	divertAllow := ""
 	if rapid.IntRange(0, 99).Draw(t, "scenario?") < 18 {
-		c.Entries = scenario(t, c.Entries)
+		var hint string
+		c.Entries, hint = scenario(t, c.Entries)
 		planted = true
+		if hint != "" && withAllow {
+			divertAllow = hint
+		}
 	}
 	rootLinkAllow := ""
 	if planted && len(c.Entries) > 0 && c.Entries[0].Type == "symlink" && Normalised(c.Entries[0].Name) == "" {
@@ -422,6 +443,8 @@ func GenCase(t *rapid.T, linkWeight, escapeWeight int, withFaults bool, withAllo
 	}
 	if withAllow && rootLinkAllow != "" {
 		c.Allow = []string{rootLinkAllow}
+	} else if divertAllow != "" {
+		c.Allow = []string{divertAllow}
 	} else if withAllow && rapid.IntRange(0, 3).Draw(t, "allow?") == 0 {
 		c.Allow = []string{rapid.SampledFrom([]string{"{R}/l1/l2/l3/outside", "../outside", "{R}/l1/l2/l3/outside/f", "../dst-evil", "/etc", "{R}/l1/l2/l3/out", "../out", "../dst-ev", "../outside/", "../dst", "{DST}", "../outside/d"}).Draw(t, "allow")}
 	}
@@ -442,7 +465,7 @@ func Exists(p string) bool {
 // scenario plants one of the known attack families (with drawn variations)
 // in front of / among the randomly drawn entries, so that their neighbourhood
 // is explored far more often than independent draws would reach it.
-func scenario(t *rapid.T, rest []tarx.Entry) []tarx.Entry {
+func scenario(t *rapid.T, rest []tarx.Entry) (entries []tarx.Entry, allowHint string) {
 	seg := func(l string) string { return rapid.SampledFrom(simpleSegs).Draw(t, l) }
 	ent := func(name, typ, link string) tarx.Entry {
 		e := tarx.Entry{Name: name, Type: typ, Link: link, Mode: rapid.SampledFrom(modes).Draw(t, "smode"),
@@ -471,7 +494,31 @@ func scenario(t *rapid.T, rest []tarx.Entry) []tarx.Entry {
 		}
 	}
 	var plant []tarx.Entry
-	switch rapid.IntRange(0, 8).Draw(t, "family") {
+	switch rapid.IntRange(0, 10).Draw(t, "family") {
+	case 10: // a target that reads as an allow-listed place but, by way of a link of the archive, leads somewhere else
+		a, b := seg("a"), seg("b")
+		if a == b {
+			b = b + "2"
+		}
+		v := rapid.IntRange(0, 3).Draw(t, "divert")
+		allowHint = []string{"../outside", "../outside/", "{R}/l1/l2/l3/outside", "../dst-evil"}[v]
+		tail := []string{"/../../outside/f", "/../../outside/d/g", "/../../outside/f", "/../../dst-evil/x"}[v]
+		// read as text the target is <parent of dst>/outside/...: the first ".." only undoes the link name
+		plant = []tarx.Entry{ent(a, "symlink", "."), ent(b, "symlink", a+tail)}
+		if rapid.Bool().Draw(t, "honest10") {
+			plant = append(plant, ent(seg("c")+"3", "symlink", strings.TrimPrefix(tail, "/../")))
+		}
+		if rapid.Bool().Draw(t, "swap10") {
+			plant[0], plant[1] = plant[1], plant[0]
+		}
+	case 9: // an entry whose name passes through a link of the archive and then steps up: "l -> ." and "l/../x"
+		l := seg("l")
+		linkName, target := l, "."
+		if rapid.Bool().Draw(t, "deep9") {
+			linkName, target = seg("n")+"/"+l, ".."
+		}
+		plant = []tarx.Entry{ent(linkName, "symlink", target),
+			third(linkName + "/../" + rapid.SampledFrom([]string{"x", "a", "../dst-evil/x", "../outside/new", "../a", "x/y"}).Draw(t, "behind9"))}
 	case 8: // an entry for the archive root that is not a directory (meant for a destination that does not exist yet)
 		rootName := rapid.SampledFrom([]string{"./", ".", "/", "a/.."}).Draw(t, "rootname8")
 		kind := rapid.SampledFrom([]string{"symlink", "symlink", "file", "hardlink"}).Draw(t, "rootkind8")
@@ -558,7 +605,7 @@ func scenario(t *rapid.T, rest []tarx.Entry) []tarx.Entry {
 		pos := rapid.IntRange(0, len(out)).Draw(t, "pos")
 		out = append(out[:pos], append([]tarx.Entry{r}, out[pos:]...)...)
 	}
-	return out
+	return out, allowHint
 }
 
 // ---------------------------------------------------------------------------
